@@ -164,8 +164,28 @@ class VDeco3E(_RecordingOwner, PoolDecorator):
     pass
 
 
+class VDecoZL(_RecordingOwner, PoolDecorator):
+    """A container-like decorator (say, a window of samples) that is empty, hence falsy"""
+
+    def __len__(self):
+        return 0
+
+
+@_eager
+class VDecoZE(_RecordingOwner, PoolDecorator):
+    def __len__(self):
+        return 0
+
+
 class VPoolL(_RecordingPool):
     pass
+
+
+class VPoolZL(_RecordingPool):
+    """A pool that is falsy (a composite without children)"""
+
+    def __bool__(self):
+        return False
 
 
 @_eager
@@ -220,6 +240,6 @@ class VItemE(_Item):
 
 PIPELINE_CLASSES = (
     VCtrlL, VCtrlE, VDeco1L, VDeco1E, VDeco2L, VDeco2E, VDeco3L, VDeco3E, VPoolL, VPoolE,
-    VCtrlFail, VDecoFail, VPoolFail,
+    VCtrlFail, VDecoFail, VPoolFail, VDecoZL, VDecoZE, VPoolZL,
 )
 ITEM_CLASSES = (VItemL, VItemE)
